@@ -1,4 +1,5 @@
-"""C18: Timeline.overlapping(t). Timeline bounds on even ticks, queries on every tick."""
+"""C18: Timeline.overlapping(t). Timeline bounds on even ticks, queries on every tick, plus
+queries on quarter ticks (time points off the grid of the rounding regime K1)."""
 from harness import enc, gen
 from harness.timebase import TB, REGIMES
 from harness.tlutil import mk_tl, segs_of
@@ -9,8 +10,9 @@ COQ_IMPORTS = "Model.Timeline"
 SHARD = 300
 RULE = ("timelines with bounds on even ticks (so that half-grid time points exist), every tick t from below the "
         "first bound to above the last: all timelines of <=3 (quick) / <=4 (thorough) segments on a 6-point grid, "
-        "plus random timelines of up to 12 segments; regimes K0/K4/K1; non-trivial = some queried t equals a "
-        "start or an end of a member")
+        "plus random timelines of up to 12 segments; regimes K0/K4/K1; also every quarter tick within one tick "
+        "of a bound (off the rounding grid of K1, where a probe Segment(t, t) would be rounded); non-trivial = "
+        "some queried t equals a start or an end of a member")
 
 
 def _case(regime, segs):
@@ -18,7 +20,8 @@ def _case(regime, segs):
     pts = sorted({x for s in segs2 for x in s}) or [0]
     ts = list(range(pts[0] - 2, pts[-1] + 3)) if pts[-1] - pts[0] <= 60 else \
         sorted({p + d for p in pts for d in (-2, -1, 0, 1, 2)})
-    return {"regime": regime, "segs": segs2, "ts": ts}
+    qs = sorted({4 * p + d for p in pts[:8] for d in (-3, -2, -1, 1, 2, 3)})
+    return {"regime": regime, "segs": segs2, "ts": ts, "qs": qs}
 
 
 def generate(rng, tier):
@@ -42,7 +45,11 @@ def run(case):
         for x in case["ts"]:
             tx = tb.t(x)
             out.append([segs_of(tb, t.overlapping(tx)), segs_of(tb, t.overlapping_iter(tx))])
-        return {"q": out}
+        outq = []
+        for q in case.get("qs", []):
+            tq = q / (4 * tb.scale)          # exact: power-of-two denominators
+            outq.append([segs_of(tb, t.overlapping(tq)), segs_of(tb, t.overlapping_iter(tq))])
+        return {"q": out, "qq": outq}
     finally:
         tb.leave()
 
@@ -51,7 +58,8 @@ def encode(case, o):
     e = enc
     eps = REGIMES[case["regime"]]["eps"]
     qs = [e.pair(e.z(t), e.pair(e.segs(a), e.segs(b))) for t, (a, b) in zip(case["ts"], o["q"])]
-    return f"K {e.z(eps)} {e.segs(case['segs'])} {e.lst(qs)}"
+    qqs = [e.pair(e.z(t), e.pair(e.segs(a), e.segs(b))) for t, (a, b) in zip(case.get("qs", []), o.get("qq", []))]
+    return f"K {e.z(eps)} {e.segs(case['segs'])} {e.lst(qs)} {e.lst(qqs)}"
 
 
 def nontrivial(case, o):
@@ -64,3 +72,5 @@ def shrink(case):
         yield {**case, "segs": s}
     for i in range(len(case["ts"])):
         yield {**case, "ts": case["ts"][:i] + case["ts"][i + 1:]}
+    for i in range(len(case.get("qs", []))):
+        yield {**case, "qs": case["qs"][:i] + case["qs"][i + 1:]}
